@@ -168,10 +168,23 @@ func TestClean(t *testing.T) {
 					c.Violation("not-canonical", "CertChain.Write", "output is not one canonical CBOR item: %v", derr)
 				}
 			}
-			plan := c.DrawReaderPlan("certnet.read", len(blob), false)
-			got, rerr, pi, _ := readChain(c, blob, plan)
+			// the chain may be followed by other data on the same stream (concatenated items):
+			// the reader must consume exactly the chain
+			trailer := []byte(nil)
+			if c.Bool("stream.trailer") {
+				trailer = c.Bytes("stream.trailerBytes", 1, 6000)
+			}
+			full := append(append([]byte(nil), blob...), trailer...)
+			plan := c.DrawReaderPlan("certnet.read", len(full), false)
+			sr := c.NewReader("certnet", full, plan)
+			var got certurl.CertChain
+			var rerr error
+			pi := c.Guard("ReadCertChain", func() { got, rerr = certurl.ReadCertChain(sr) })
 			if pi != nil {
-				c.CheckTotal("ReadCertChain", len(blob), pi, 0)
+				c.CheckTotal("ReadCertChain", len(full), pi, 0)
+			}
+			if c.Oracle("C17", "C12") && rerr == nil && sr.Consumed() != len(blob) {
+				c.Violation("wrong-consumption", "ReadCertChain", "the reader consumed %d bytes of the stream, the chain is %d bytes (%d bytes of other data follow)", sr.Consumed(), len(blob), len(trailer))
 			}
 			if c.Oracle("C17") {
 				if rerr != nil {
